@@ -190,6 +190,13 @@ class Repo:
                 self.by_rel[rel] = mi
         for mi in self.modules.values():
             self._index_module(mi)
+        self.alpha_normalised = 0
+        if not os.environ.get("GLINT_NO_ALPHA"):
+            from glint.alpha import normalise
+
+            for q, fi in self.functions.items():
+                if fi.parent is None and normalise(q, fi.node):
+                    self.alpha_normalised += 1
 
     def _index_module(self, mi: ModuleInfo) -> None:
         for node in ast.walk(mi.tree):
